@@ -534,7 +534,15 @@ theorem mkCell_ok (r : Region) (n : List Nat) (hn : n.length = r.ndim)
     have h2 : 0 < r.edge a := by unfold Region.edge; linarith [hr a ha]
     exact (n_recovered_axis _ h2 _ (hpos a ha)).symm
   have c7 : ("" : String).toLower = "" := by simp [String.toLower]
-  rw [if_neg c1, c2, c3, c4, c5, c6, c7]
+  have c4b : allLt r.ndim (fun a => decide (1 ≤ (Mesh.roundHalfEven (r.edge a /
+      (tab r.ndim fun a => r.edge a / (n.getD a 0 : Rat)).getD a 0)).toNat)) = true := by
+    rw [allLt_iff]
+    intro a ha
+    rw [hget a ha]
+    have h2 : 0 < r.edge a := by unfold Region.edge; linarith [hr a ha]
+    rw [n_recovered_axis _ h2 _ (hpos a ha)]
+    exact decide_eq_true (hpos a ha)
+  rw [if_neg c1, c2, c3, c4, c4b, c5, c6, c7]
   simp
 
 
